@@ -178,6 +178,27 @@ def structured_3d():
     yield [[2, 1, 1], [1, 2, 1], [1, 1, 2]]
 
 
+def block_matrices(rng, k):
+    """separable and block matrices (the cases in which the shortcuts are really taken)"""
+    scales = [1, -1, 2, 3, [1, 2], [-3, 2]]
+    for n in (2, 3):
+        for _ in range(k):
+            yield aug([[rng.choice(scales) if i == j else 0 for j in range(n)] for i in range(n)],
+                      [rng.choice([0, 1, -2, [1, 2]]) for _ in range(n)])
+    blocks = list(small_matrices(2))
+    for _ in range(2 * k):
+        b = rng.choice(blocks)
+        lone = rng.randrange(3)                    # the axis that is on its own
+        pair = [i for i in range(3) if i != lone]
+        m = [[0] * 3 for _ in range(3)]
+        # optionally route the lone world axis to the lone pixel axis (diagonal) — always invertible
+        m[lone][lone] = rng.choice([1, -1, 2])
+        for a in range(2):
+            for c in range(2):
+                m[pair[a]][pair[c]] = b[a][c]
+        yield aug(m, rng.choice(TRANSLATIONS[3]))
+
+
 def random_dyadic(n, rng):
     """random matrix with dyadic entries and non-zero determinant (bounded inverse denominators)"""
     while True:
@@ -213,23 +234,27 @@ def coords_stream(tier, rng, n_dims=(1, 2, 3)):
         pool = None
         if not quick:
             pool = list(small_matrices(3))
-        k = 150 if quick else 2500
+        yield from block_matrices(rng, 25 if quick else 200)
+        k = 300 if quick else 6000
         for _ in range(k):
-            if pool is not None:
+            dens = rng.choice([0.34, 0.45, 0.6, 1.0])
+            if pool is not None and dens == 1.0:
                 m = rng.choice(pool)
             else:
+                # sparse patterns (blocks, permutations, triangles) are where the shortcuts are taken
                 while True:
-                    ent = [rng.choice(ENTRIES) for _ in range(9)]
+                    ent = [rng.choice(ENTRIES[1:]) if rng.random() < dens else 0 for _ in range(9)]
                     m = [ent[0:3], ent[3:6], ent[6:9]]
                     if det_frac(m) != 0:
                         break
             yield aug(m, rng.choice(TRANSLATIONS[3]))
-    for _ in range(120 if quick else 3000):
+    for _ in range(200 if quick else 4000):
         yield random_dyadic(rng.choice(n_dims), rng)
 
 
 SLICES = [[None, None, None], [1, None, None], [None, -1, None], [0, 0, None], [None, None, 2], [1, 3, None],
-          [None, None, -1], [2, None, -2], [-2, None, None], [5, 9, None]]
+          [None, None, -1], [2, None, -2], [-2, None, None], [5, 9, None], [None, None, None], [0, 2, None],
+          [None, None, 3], [-3, -1, None]]
 
 
 def items_for(h, rng, allow_bad=False):
